@@ -112,7 +112,7 @@ CLAIMED = {
              "exact discrete solution unchanged — with no operator hypothesis left; C10d: the same for any depth and for the implicitly extrapolated "
              "cycle with either level-0 smoother; C10e: the concrete cycle is total (never leaves through the sparse LU's exit branch) for any "
              "iterate, two levels without smoothing give u + P e with e solving the assembled coarse system, and the error propagation is "
-             "independent of the solution (translation invariance); C10g: whole cycles of the give strategy equal those of the take strategy; C10h: the size hypotheses of these theorems are derived from the level-selection and split theorems (C17, C18) for every hierarchy setup() builds; C10i: the hierarchy itself is built in the model from grids and input functions through the cache constructors (GMGModel/Build.lean), its data are proved elliptic from alpha > 0, beta >= 0, det DF != 0, and the fixed-point theorem is stated end to end on the inputs.  Tie: the hooks log every vector-level operation of one "
+             "independent of the solution (translation invariance); C10g: whole cycles of the give strategy equal those of the take strategy; C10h: the size hypotheses of these theorems are derived from the level-selection and split theorems (C17, C18) for every hierarchy setup() builds; C10i: the hierarchy itself is built in the model from grids and input functions through the cache constructors (GMGModel/Build.lean), its data are proved elliptic from alpha > 0, beta >= 0, det DF != 0, and the fixed-point theorem is stated end to end on the inputs; C10j: totality and translation invariance (plain and extrapolated) for every built hierarchy, with the odd nr of level 0, the level-1 side condition and the level-0/level-1 shape relation derived from the level-selection theorems instead of assumed.  Tie: the hooks log every vector-level operation of one "
              "private cycle and the log must equal the model program token for token; the whole concrete cycle is executed in the model "
              "(IEEE double, exact rationals for the smallest cases) against the real cycle.",
         design_ref="DESIGN.md section 4, C10 and R.9", note="Lean kernel; the operators behind each instruction are tied by C03/C04/C06/C07/C08 and, composed, by the whole-cycle stage.",
